@@ -10,6 +10,7 @@ import time
 from hypothesis import strategies as st
 
 from hxv.gen import streams as gs
+from hxv.lib import mk_candles as _mk
 from hxv.lib import Result, Violation, mk_candles, raises, snap, split_chunks, tf_seconds
 from hxv.ref import resample as rr
 from hxv.runner import Shard
@@ -70,7 +71,7 @@ def cases(draw, max_n=30):
         rows.append([t, draw(st.integers(lo, hi)), hi, lo, draw(st.integers(lo, hi)), draw(st.integers(0, 9))])
         t += draw(st.sampled_from((step, step, step, 0, 1, 3 * step)))
     preload = min(n, draw(st.sampled_from((0, 1, n // 2, n))))
-    return {"tz": tz, "tf": tf, "stream": rows, "preload": preload, "chunks": draw(gs.chunking(n - preload)), "fill": draw(st.booleans()), "on_transition": on_transition, "mode": draw(st.sampled_from(("manager", "manager", "indicator", "hexital"))), "lifespan": draw(st.sampled_from((None, None, None, 2 * tfs, 3600, 5 * tfs + 7))), "micro": draw(st.sampled_from((False, False, False, True)))}
+    return {"tz": tz, "tf": tf, "stream": rows, "preload": preload, "chunks": draw(gs.chunking(n - preload)), "fill": draw(st.booleans()), "on_transition": on_transition, "mode": draw(st.sampled_from(("manager", "manager", "indicator", "hexital"))), "lifespan": draw(st.sampled_from((None, None, None, 2 * tfs, 3600, 5 * tfs + 7))), "micro": draw(st.sampled_from((False, False, False, True))), "tzoff": draw(st.sampled_from((None, None, None, None, 0, 330, -300)))}
 
 
 def _collapse(case):
@@ -84,6 +85,7 @@ def _collapse(case):
     pre = min(case.get("preload", 0), len(rows))
     mode = case.get("mode", "manager")
     fill = bool(case.get("fill"))
+    mk_candles = lambda rr_: _mk(rr_, case.get("tzoff"))  # noqa: E731  (aware timestamps: their own offset rules, not TZ)
     from datetime import timedelta
 
     life = {"candles_lifespan": timedelta(seconds=case["lifespan"])} if case.get("lifespan") else {}
